@@ -80,6 +80,12 @@ pub fn programs(tier: Tier) -> ProgramSet {
             }
         }
     }
+    for (spec, label) in scale_specs() {
+        if domain(&spec) && seen.insert(spec.clone()) {
+            let source = render(&spec);
+            out.push(Program { idx: 0, label, k: 1, spec, aux: json!(null), source });
+        }
+    }
     let mut exm = std::collections::BTreeMap::new();
     exm.insert("overlapping spellings / braces in a name".to_string(), ex as u64);
     ProgramSet { programs: finish(out), excluded: exm, bounds: json!({"N": 3, "k_max": if tier == Tier::Quick { 2 } else { 3 }, "styles": 16, "level3": "N=2 over a reduced alphabet with case twins (thorough)"}) }
